@@ -52,6 +52,7 @@ func (ex *Exec) callWithValues(fr *frame, st *State, reach *Term, c *ssa.CallCom
 		if n, ok := types.Unalias(c.Value.Type()).(*types.Named); ok && n.Obj().Pkg() != nil {
 			if fc, ok := ex.eng.cs.FuncTypes[n.Obj().Pkg().Path()+"."+n.Obj().Name()]; ok {
 				nonnil := Not(Eq(f, IntLit(0)))
+				ex.vc.note("assumed contract of function type " + n.Obj().Pkg().Path() + "." + n.Obj().Name() + " (calls through values of that type)")
 				if ex.safety {
 					ex.safeOblige(fr, reach, nonnil, "nil-func", instr)
 				}
@@ -107,6 +108,9 @@ func (ex *Exec) callFunc(fr *frame, st *State, reach *Term, fn *ssa.Function, fr
 		return ex.applyContract(fr, st, reach, fn, fc, args, instr)
 	}
 	if eff := ex.eng.effectOf(fn); eff != effUnknown && len(fn.Blocks) == 0 || eff == effPure || eff == effNoop {
+		if d, declared := ex.eng.cs.Effects[funcKey(fn)]; declared {
+			ex.vc.note("assumed effect declaration (" + d + ", not verified) of " + funcKey(fn))
+		}
 		return ex.pureCall(fr, st, reach, fn, args, instr), reach
 	}
 	if ex.canInline(fn) {
